@@ -172,7 +172,7 @@ def acc_cases(seed, n, maxdim, groups, path, large_share=0.25):
                 by = rnd.choice(["row", "col"])
                 nlines = r if by == "row" else c
                 line = _idx(rnd, nlines)
-                form = rnd.choice(["cmp", "key", "ord", "skey"])
+                form = rnd.choice(["cmp", "key", "ord", "skey", "bkey"])
                 a = {"by": by, "stable": True, "form": form, "line": line}
                 # give every cell a random key so that the key line has ties
                 ids = [3 * (i + 1) + rnd.randint(0, 2) for i in range(nc * nr)]
